@@ -63,9 +63,15 @@ def main():
     rng = random.Random(SEED)
     cands = candidates()
     rng.shuffle(cands)
-    results = []
-    done = 0
+    out = "/verif/seeded/mutants_seed%d.json" % SEED
+    results = json.load(open(out))["mutants"] if os.path.exists(out) else []     # resume
+    seen = {(r["file"], r["line"], r["new"]) for r in results}
+    done = sum(1 for r in results if r.get("status") == "survives the suite")
     for mut in cands:
+        f0, i0, a0, b0, k0 = mut
+        l0 = open(os.path.join(REPO, f0), newline="").read().split("\n")[i0]
+        if (f0, i0 + 1, (l0[:a0] + OPS[k0][1] + l0[b0:]).strip()) in seen:
+            continue
         if done >= N:
             break
         old, new = apply(mut)
@@ -75,7 +81,8 @@ def main():
             if "error" in b.stdout:
                 rec["status"] = "does not compile"
                 continue
-            t = sh("cargo test --workspace --offline --no-fail-fast 2>&1 | grep -E '^test result|FAILED|panicked' | head", cwd=REPO, timeout=1200)
+            # a mutant that makes a test loop forever is killed by the suite as well (timeout -> no "test result" lines)
+            t = sh("timeout -k 5 600 cargo test --workspace --offline --no-fail-fast 2>&1 | grep -E '^test result|FAILED|panicked' | head", cwd=REPO, timeout=1200)
             if "FAILED" in t.stdout or "panicked" in t.stdout or t.stdout.count("test result: ok") < 4:
                 rec["status"] = "killed by the existing suite"
                 results.append(rec)
@@ -93,7 +100,8 @@ def main():
             print(json.dumps(rec), flush=True)
         finally:
             sh("git -C /repo checkout -- .")
-            json.dump({"seed": SEED, "mutants": results}, open("/verif/seeded/mutants_seed%d.json" % SEED, "w"), indent=1)
+            sh("pkill -f 'target/debug/deps' || true")
+            json.dump({"seed": SEED, "mutants": results}, open(out, "w"), indent=1)
     assert sh("git -C /repo status --short").stdout.strip() == ""
 
 
